@@ -262,6 +262,12 @@ fn const_bytes<'tcx>(tcx: TyCtxt<'tcx>, c: &mir::Const<'tcx>) -> Option<Vec<u8>>
       let start = off.bytes() as usize;
       Some(a.inspect_with_uninit_and_ptr_outside_interpreter(start..a.len()).to_vec())
     }
+    ConstValue::Indirect { alloc_id, offset } => {
+      let GlobalAlloc::Memory(alloc) = tcx.global_alloc(*alloc_id) else { return None };
+      let a = alloc.inner();
+      let start = offset.bytes() as usize;
+      Some(a.inspect_with_uninit_and_ptr_outside_interpreter(start..a.len()).to_vec())
+    }
     ConstValue::Slice { alloc_id, meta } => {
       let GlobalAlloc::Memory(alloc) = tcx.global_alloc(*alloc_id) else { return None };
       let a = alloc.inner();
